@@ -625,6 +625,23 @@ def rejections(ctx):
         attempt("C02.reject.shape", vals((int(np.prod(n)), nvdim)), "flattened cells")
     if nvdim == 1:
         attempt("C02.reject.shape", vals(tuple(shp)), f"scalar-field array shape {tuple(shp)}")
+    # wrong shapes that numpy would broadcast: the right last axis, leading axes that fit
+    # the *trailing* mesh axes (or have length one) - neither one vector for all cells nor
+    # one vector per cell
+    def legit(shape):
+        return tuple(shape) in {(nvdim,), (*n, nvdim)} or (nvdim == 1 and tuple(shape) == tuple(n))
+
+    if nd >= 2:
+        for shape, why in (((n[-1], nvdim), "last mesh axis only"), ((*n[1:], nvdim), "first mesh axis missing")):
+            if not legit(shape):
+                attempt("C02.reject.shape", vals(shape), f"array shape {shape}: {why}")
+    if int(np.prod(n)) > 1:
+        attempt("C02.reject.shape", vals((*[1] * nd, nvdim)), f"array shape {(*[1] * nd, nvdim)}: one cell")
+        k = int(rng.integers(0, nd))
+        if n[k] > 1:
+            one = list(n)
+            one[k] = 1
+            attempt("C02.reject.shape", vals((*one, nvdim)), f"array shape {(*one, nvdim)}: axis {k} collapsed")
 
     # ---- wrong component count
     for cnt in {nvdim + 1, max(1, nvdim - 1), nvdim + 3} - {nvdim}:
@@ -645,10 +662,22 @@ def rejections(ctx):
     f = df.Field(mesh, nvdim=nvdim, value=good.exp.copy(), dtype=NP_DTYPE[dtype])
     attempt("C02.reject.count.source_field", other, f"source field with {wrong} components")
     f = keep
-    if boxes:
+    if boxes and not (nvdim == 1 and nd == 1):
+        # (on a 1-d scalar field a sequence can be a per-cell array of a subregion or of
+        # the whole mesh)
         items = {k: tuple(vals((wrong,)).tolist()) for k in boxes}
         items["default"] = tuple(vals((wrong,)).tolist())
         attempt("C02.reject.count", items, f"dict items with {wrong} components")
+        # only the default is wrong (the subregion values are fine)
+        fine = {k: tuple(vals((nvdim,)).tolist()) for k in boxes}
+        if not (nvdim == 1 and nd == 1 and wrong == n[0]):
+            # (a length-n sequence on a 1-d scalar field *is* a per-cell array)
+            attempt("C02.reject.count", dict(fine, default=tuple(vals((wrong,)).tolist())),
+                    f"dict whose constant default has {wrong} components")
+        if nvdim > 1:
+            attempt("C02.reject.count", dict(fine, default=float(rng.uniform(0.5, 2))),
+                    "dict whose default is a non-zero scalar for a vector field")
+        attempt("C02.reject.type", dict(fine, default=None), "dict whose default is None")
 
     # ---- wrong type
     for bad, label in [("abc"[:max(nvdim, 1)], "str"), (None, "None"), (object(), "object()"),
@@ -657,6 +686,15 @@ def rejections(ctx):
     if dtype != "bool":
         # (for dtype=bool numpy itself converts any str to True: not judged)
         attempt("C02.reject.type", {"default": "a"}, "dict with a str default")
+    # sequences whose elements are not numbers (no dtype given: nothing converts them)
+    for bad, label in [(["a"] * nvdim, "list of str"), (tuple(str(k) for k in range(nvdim)), "tuple of numeric str"),
+                       ([None] * nvdim, "list of None"), (np.array(["a"] * nvdim), "ndarray of str"),
+                       (np.full((*n, nvdim), "a"), "per-cell ndarray of str")]:
+        g = df.Field(mesh, nvdim=nvdim, value=np.array(good.exp, dtype=complex if dtype == "complex" else float))
+        ctx.expect_raises("C02.reject.type", lambda: df.Field(mesh, nvdim=nvdim, value=bad),
+                          what=dict(base, bad=label, how="ctor, no dtype"))
+        ctx.expect_raises("C02.reject.type", g.update_field_values, bad, unchanged=[g],
+                          what=dict(base, bad=label, how="update_field_values, no dtype"))
     # the field still holds its values and still accepts a good specification afterwards
     ctx.check("C02.reject.field_still_good", np.array_equal(f.array, good.exp), **base)
     new = array_piece(rng, spec, nvdim, dtype)
